@@ -366,9 +366,12 @@ impl TextSelection {
     /// Low-level method to get a textselection inside the current one
     /// Note: this is a low level method and will always return an unbound textselection!
     pub fn textselection_by_offset(&self, offset: &Offset) -> Result<TextSelection, StamError> {
+        //(saturating: a cursor near usize::MAX must end up as an out-of-bounds error below, not as an overflow)
         let (begin, end) = (
-            self.begin + self.beginaligned_cursor(&offset.begin)?,
-            self.begin + self.beginaligned_cursor(&offset.end)?,
+            self.begin
+                .saturating_add(self.beginaligned_cursor(&offset.begin)?),
+            self.begin
+                .saturating_add(self.beginaligned_cursor(&offset.end)?),
         );
         if begin > self.end {
             return Err(StamError::CursorOutOfBounds(
